@@ -793,6 +793,64 @@ def advidx(run, fx):
                          {'facts': [f[:3] for f in fs][:12]})
 
 
+def attrstride(run, rule='GROWTH'):
+    """GROWTH: Segment::newSlot carves one block of user attributes into per-slot pieces: the distance between the pieces of consecutive
+    slots is the per-slot size the block was allocated with -- the same expression, in the plain build and in the build with tracing
+    compiled in (where a logged segment keeps one more cell per slot).  A stride taken from another source agrees only as long as
+    nobody is logging: then the last cell of each slot is the first cell of the next."""
+    for cfg in ('Q0', 'traceseg'):
+        fx = run.facts(cfg)
+        fn = fx.one('graphite2::Segment::newSlot')
+        inst = '[%s] the attribute blocks of consecutive slots are one per-slot size apart' % cfg
+
+        def norm(x, depth=0):
+            # a local that only ever holds its initialiser, and a getter that only returns one expression, stand for that expression
+            x = fn.strip_all_casts(fn.N(x))
+            if depth < 4 and x['k'] == 'DeclRefExpr' and x.get('vid') in fn.const_init:
+                return norm(fn.const_init[x['vid']], depth + 1)
+            if depth < 4 and x['k'] == 'CXXMemberCallExpr' and not x.get('args') and fn.render(fn.N(x['obj'])) in ('this', '*this') if x.get('obj') is not None else False:
+                cs = fx.fns_named(x.get('fq') or '')
+                if len(cs) >= 1:
+                    rets = [r_ for _, r_ in cs[0].elements() if r_['k'] == 'ReturnStmt' and r_.get('c')]
+                    if len(rets) == 1 and len(list(cs[0].elements())) < 12:
+                        return cs[0].render(cs[0].strip_all_casts(cs[0].N(rets[0]['c'][0]))).replace(' ', '')
+            return fn.render(x).replace(' ', '')
+        allocs = []
+        for _, e in fn.elements():
+            if e['k'] == 'DeclStmt':
+                for d in e.get('decls', []):
+                    if d.get('init') is None:
+                        continue
+                    r = fn.strip_all_casts(fn.N(d['init']))
+                    if r['k'] == 'CallExpr' and (r.get('fq') or '').split('<')[0] in ('graphite2::grzeroalloc', 'graphite2::gralloc') and 'short' in (d.get('t') or '') and r.get('args'):
+                        a = fn.strip_all_casts(fn.N(r['args'][0]))
+                        if a['k'] == 'BinaryOperator' and a['op'] == '*':
+                            allocs.append((d, [norm(x) for x in a['c']]))
+        strides = []
+        for _, e in fn.elements():
+            if e['k'] in ('CXXConstructExpr', 'CXXTemporaryObjectExpr') and (e.get('fq') or '').endswith('Slot::Slot'):
+                args = e.get('args') if e.get('args') is not None else (e.get('c') or [])
+                for a in args:
+                    if a is None:
+                        continue
+                    x = fn.strip_all_casts(fn.N(a))
+                    if x['k'] == 'BinaryOperator' and x['op'] == '+':
+                        for side in x['c']:
+                            m = fn.strip_all_casts(fn.N(side))
+                            if m['k'] == 'BinaryOperator' and m['op'] == '*':
+                                strides.append((e, [norm(y) for y in m['c']]))
+        if len(allocs) != 1 or len(strides) != 1:
+            run.broken(rule, inst, 'the attribute block allocation (count * size) / the per-slot placement (block + i * size) of newSlot were not recognised (%d, %d)' % (len(allocs), len(strides)), fn.where())
+            continue
+        common = set(allocs[0][1]) & set(strides[0][1])
+        if common:
+            run.held(rule, inst, fn.loc(strides[0][0]), 'allocated as %s, placed at i * %s' % (' * '.join(allocs[0][1]), sorted(common)[0]))
+        else:
+            run.violated(rule, inst, fn.loc(strides[0][0]), 'the block is allocated as %s cells, but slot i gets the piece at %s: the two sizes are different expressions%s' %
+                         (' * '.join(allocs[0][1]), ' * '.join(strides[0][1]), ' -- with tracing compiled in and a logger attached the block holds one more cell per slot than the stride steps over, so the '
+                          'last cell of every slot (the debug counter freeSlot increments) is the first user attribute of the next slot' if cfg != 'Q0' else ''))
+
+
 def run(run):
     vm = R.get_vm(run)
     fx = vm.fx
@@ -804,6 +862,8 @@ def run(run):
     slotref(run, vm)
     userattr(run, fx)
     growth(run, vm)
+    if not run.cfg_tag:
+        attrstride(run)
     from . import c18 as c18_
     c18_.applyval_exec(run, fx, 'GROWTH')        # SET_FEAT grows the segment's feature words through applyValToFeature: no store behind the block (shared with C18)
     const_(run, vm)
